@@ -1,3 +1,4 @@
 pub mod cli;
 pub mod core;
+pub mod lsp;
 pub mod sandbox;
